@@ -6,6 +6,7 @@ open Emboss.Fmt
 #print axioms C11_tokens_preserved
 #print axioms C11_render_separable
 #print axioms C11_table_normal
+#print axioms C11_table_comment
 #print axioms C11_format_factors_partial
 #print axioms C11_format_fixed_point_partial
 #print axioms C11_layout_passes_idempotent
